@@ -50,6 +50,7 @@ type Gen struct {
 	usesFrozen, freezesKnown, hasFreezes bool
 	needClosure bool
 	embedded map[string]bool
+	freezesBy map[string]bool
 	tracked map[string]bool // "pkg|struct": struct types that contracts of package pkg constrain with typed(); only functions of pkg track them
 	curPkg  string
 }
@@ -309,17 +310,23 @@ func (g *Gen) trackedStruct(t types.Type) bool {
 	return g.tracked[g.curPkg+"|"+canonStructName(t)]
 }
 
+// anyFreezes: does the package under verification deal with retained (frozen) arrays at all - does one of its own
+// contracts, or a stub, carry a `freezes` clause? (Per package, so that loading more packages does not change the
+// obligations of the others.)
 func (g *Gen) anyFreezes() bool {
-	if g.freezesKnown {
-		return g.hasFreezes
-	}
-	g.freezesKnown = true
-	for _, c := range g.cs.Funcs {
-		if len(c.Freezes) > 0 {
-			g.hasFreezes = true
+	if g.freezesBy == nil {
+		g.freezesBy = map[string]bool{}
+		for _, c := range g.cs.Funcs {
+			if len(c.Freezes) > 0 {
+				if c.NoBody {
+					g.freezesBy["*"] = true
+				} else {
+					g.freezesBy[c.Pkg] = true
+				}
+			}
 		}
 	}
-	return g.hasFreezes
+	return g.freezesBy["*"] || g.freezesBy[g.curPkg]
 }
 
 func (g *Gen) fileOf(pos token.Pos) *ast.File {
@@ -692,7 +699,7 @@ func (g *Gen) inlinable(x *Exec, f *ssa.Function) bool {
 	if f.Synthetic == "" && fp != nil {
 		top := x.stack[0]
 		samePkg := top.Pkg != nil && top.Pkg.Pkg == fp
-		isPB := strings.Contains(fp.Path(), "/proto/")
+		isPB := strings.Contains(fp.Path(), "/proto/") || strings.HasSuffix(fp.Path(), "/proto")
 		if !samePkg && !isPB {
 			return false
 		}
